@@ -300,6 +300,8 @@ func runC10(c *Ctx, r *Report) {
 	fetchOptionsFromFetchOptions(c, r, "R-C10.21")
 	r.Doc("R-C10.22", "the latest clock time the fetcher has seen only orders its queue: no branch outside its own bookkeeping depends on it (pruning what lies 'too far behind' presumes an entry per clock tick)")
 	latestClockOnlyOrdersTheQueue(c, r, "R-C10.22")
+	r.Doc("R-C10.23", "the length a loader hands to the fetcher is never the result of a subtraction (the requested length less the entries the caller holds comes back short when one of them lies in the past of another)")
+	fetchLengthIsNotReduced(c, r, "R-C10.23")
 	r.Doc("R-C10.15", "nothing is allocated for the length limit itself: every sized allocation is bounded by a collection that exists (adopted from C15: a limit above the log's size returns the whole log)")
 	importRules(c, r, "C15", []string{"R-C15.15"}, "R-C10.15")
 	r.Doc("R-C10.12", "a fetched entry is never refused, and its predecessors never left unqueued, on a clock tie: wherever the fetcher compares an entry's clock time with a bound it tracks before admitting the entry or queueing its links, the condition is as true for an equal time as for a later one (the log's order breaks equal times by writer id, so a tied entry can still belong to the kept tail; treating it as older makes the outcome depend on block arrival order)")
